@@ -299,7 +299,7 @@ def run(ctx):
     helpers = CR.helper_traces(rng, ctx.pick(40, 600), hid)
     for h in helpers:
         h['case'] = dict(src='helper', id=h['id'])
-        h['stats'] = dict(fills=0, steps=0, hookreads=0, formingreads=0, fill_minutes=[], reads=0)
+        h['stats'] = dict(fills=0, steps=0, hookreads=0, formingreads=0, fill_minutes=[], reads=0, skipped=0)
     verdicts, results, seen = judge(ctx, traces + helpers, "C07")
     # ------------------------------------------------------------ coverage
     reads = sum(t['stats']['reads'] for t in traces)
@@ -334,6 +334,7 @@ def run(ctx):
         "helper_traces": len(helpers), "reads_checked_by_tlc": reads,
         "forming_reads": sum(t['stats']['formingreads'] for t in traces),
         "hook_reads": sum(t['stats']['hookreads'] for t in traces),
+        "reads_skipped_off_lattice": sum(t['stats'].get('skipped', 0) for t in traces),
         "mid_candle_fills": sum(t['stats']['fills'] for t in traces),
         "fast_runs": sum(1 for t in traces if t['hdr']['mode'] == 'fast'),
         "runs_with_warmup": sum(1 for t in traces if t['hdr']['W'] > 0),
